@@ -255,7 +255,110 @@ func (w *World) loadKey(ld *ssa.UnOp) string {
 	if w.stableEscaped(base, loc) {
 		return "*" + loc
 	}
+	if ld.Parent() != base.Parent() && w.stableInClosure(base, loc, ld.Parent()) {
+		return fmt.Sprintf("*%s@in:%s", loc, ld.Parent().Name())
+	}
 	return fmt.Sprintf("*%s@%s", loc, ld.Name())
+}
+
+// stableInClosure: a local of an enclosing function captured by exactly one closure f, which
+// is only ever called synchronously: within one invocation of f all loads of the location see
+// one value when no write in f (a store, or a call handed an address under the variable) can
+// lie between two of them. The key is per closure: loads in the enclosing function, before or
+// after the calls, are other versions.
+func (w *World) stableInClosure(al *ssa.Alloc, loc string, f *ssa.Function) bool {
+	mk := loc + "@in:" + f.String()
+	if k, ok := w.stableMemo[mk]; ok {
+		return k
+	}
+	ok := func() bool {
+		var fv *ssa.FreeVar
+		n := 0
+		for _, r := range *al.Referrers() {
+			mc, isMC := r.(*ssa.MakeClosure)
+			if !isMC {
+				continue
+			}
+			n++
+			if mc.Fn != ssa.Value(f) || mc.Referrers() == nil {
+				return false
+			}
+			for _, u := range *mc.Referrers() {
+				if _, isCall := u.(*ssa.Call); !isCall {
+					if _, isDbg := u.(*ssa.DebugRef); !isDbg {
+						return false // started as a goroutine, deferred, or stored: may run at other times
+					}
+				}
+			}
+			for i, b := range mc.Bindings {
+				if b == ssa.Value(al) && i < len(f.FreeVars) {
+					fv = f.FreeVars[i]
+				}
+			}
+		}
+		if n != 1 || fv == nil {
+			return false
+		}
+		for _, b := range al.Parent().Blocks {
+			for _, in := range b.Instrs {
+				if _, isGo := in.(*ssa.Go); isGo {
+					return false
+				}
+			}
+		}
+		var writes, loads []ssa.Instruction
+		var visit func(v ssa.Value) bool
+		visit = func(v ssa.Value) bool {
+			if v.Referrers() == nil {
+				return true
+			}
+			for _, r := range *v.Referrers() {
+				switch x := r.(type) {
+				case *ssa.FieldAddr:
+					if !visit(x) {
+						return false
+					}
+				case *ssa.IndexAddr:
+					if !visit(x) {
+						return false
+					}
+				case *ssa.UnOp:
+					if x.Op == token.MUL && w.locKey(x.X) == loc {
+						loads = append(loads, x)
+					}
+				case *ssa.Store:
+					if x.Val == v {
+						return false // the address itself is stored somewhere
+					}
+					writes = append(writes, x)
+				case *ssa.MakeClosure, *ssa.Go, *ssa.Defer:
+					return false
+				case *ssa.DebugRef:
+				default:
+					writes = append(writes, r)
+				}
+			}
+			return true
+		}
+		if !visit(fv) {
+			return false
+		}
+		for _, wr := range writes {
+			for _, l1 := range loads {
+				if !instrReaches(l1, wr) {
+					continue
+				}
+				for _, l2 := range loads {
+					if instrReaches(wr, l2) {
+						return false
+					}
+				}
+			}
+		}
+		return true
+	}()
+	w.stableMemo[mk] = ok
+	return ok
 }
 
 func (w *World) storesUnder(loc string) []*ssa.Store {
